@@ -145,6 +145,17 @@ def task(W, payload):
     ops = prog["build"]; params = prog["params"]
     h = prog_hash(ops)
     if mode == "hashseed":
+        # aggregates over many sources with non-integer values: a summation order that depended on the hash seed would show in the last bits
+        names0 = ops[0]["comps"]
+        extra = [{"op": "request", "name": f"hs_c{i}", "kind": "comp", "comps": [n_], "save": False} for i, n_ in enumerate(names0)]
+        fl_names = sorted(set(op["name"] for op in ops if op["op"] == "flow"))[:4]
+        extra += [{"op": "request", "name": f"hs_f{i}", "kind": "flow", "flow": n_, "raw": bool(i % 2), "save": False} for i, n_ in enumerate(fl_names)]
+        srcs = [e["name"] for e in extra]
+        if len(srcs) >= 3 and not any(op["op"] == "whitelist" for op in ops):
+            a = list(srcs); r.shuffle(a); b = list(srcs); r.shuffle(b)
+            extra += [{"op": "request", "name": "hs_agg_a", "kind": "agg", "sources": a, "save": True},
+                      {"op": "request", "name": "hs_agg_b", "kind": "agg", "sources": b[: max(3, len(b) - 1)], "save": True}]
+            ops = ops + extra
         runs = [{"op": "run", "params": [[k, v] for k, v in params.items()], "solver": s, "rebuild": True} for s in ("euler", "odeint")]
         job = json.dumps({"ops": ops, "runs": runs})
         digs = {}
